@@ -1,11 +1,12 @@
 (* C12 — liquid staking: derivatives are backed, redeemable and vote like their stake.
-   Property theorems only; proofs are in Proofs/Liquid.v.  The model follows /repo after the
+   Property theorems only; proofs are in Proofs/Liquid.v, Proofs/LiquidValue.v (value owned, any
+   exchange rate) and Proofs/Tally.v (the whole fold of the tally handler).  The model follows /repo after the
    three fix commits (MintDerivative mints at most the shares the module received;
    TransferDelegation re-delegates nothing when no whole token was unbonded; the tally skips
    derivatives of validators outside the bonded set).  Where a clause is still false of the
    faithful model there is a [_refuted] witness (closed, vm_compute) next to the strongest true
    statement. *)
-From Kava Require Import Base.Prelude Base.Dec Model.Staking Model.Tally Model.Liquid Proofs.Liquid.
+From Kava Require Import Base.Prelude Base.Dec Model.Staking Model.Tally Model.Liquid Model.TallyTie Proofs.Liquid Proofs.LiquidValue Proofs.Tally.
 Local Open Scope Z_scope.
 
 (** A small world used by the witnesses: accounts 0,1 users, 2,3 operators of validators
@@ -118,6 +119,131 @@ Proof.
   repeat split; auto. unfold staked_value. now rewrite Ho, Hv.
 Qed.
 Print Assumptions C12_value_preserved_rate_one.
+
+(** *** the staked value owned by the user, for ANY exchange rate (slashed validators).
+    value = TokensFromShares(delegation shares + derivative units held * 10^18), truncated: the
+    valuation of the Go monitor.  Hypotheses of every statement: the model invariant and backing
+    (both hold after every history, theorems above), the user is not the module account. *)
+
+(* a mint never raises the value by more than one base unit (any exchange rate) *)
+Theorem C12_mint_value_gain_at_most_one :
+  forall e s a i amt s' minted,
+  env_wf e -> Inv e s -> backed_all e s -> (a < nacc e)%nat -> a <> liq e ->
+  mint e s a i amt = Ok s' minted ->
+  staked_value s' a i <= staked_value s a i + 1.
+Proof. exact mint_value_upper. Qed.
+Print Assumptions C12_mint_value_gain_at_most_one.
+
+(* "... by more than two base units" is FALSE for a mint: on the state reached by
+   delegate-less history [slash 7 %; the operator undelegates all but 1.018 shares of dust] user 0
+   owns 965002 base units; minting 965002 leaves 964999: Unbond truncates one token, the two
+   tokens left belong to 1.036 shares (price x 1.93), 499999.97 shares arrive, 499999 units are
+   minted.  Reproduced on the real keepers (corpus/C12, scenario stream 7): known finding
+   staked-value-changed:mint:unbond-truncation-reprices-remaining-shares. *)
+Definition w3_init : state :=
+  mk_state
+    [mkVal true 2000003 (2000003 * PREC) Bonded false 1; mkVal true 1000000 (1000000 * PREC) Bonded false 1]
+    [(0%nat, 0%nat, Some (1000001 * PREC)); (2%nat, 0%nat, Some (1000002 * PREC)); (3%nat, 1%nat, Some (1000000 * PREC))]
+    [5000; 0; 0; 0; 0].
+
+Theorem C12_value_two_units_refuted :
+  let s := run w_env w3_init [Slash 0%nat 1 70000000000000000; Undelegate 2%nat 0%nat 965001] in
+  let s' := step' w_env s (Mint 0%nat 0%nat 965002) in
+  inv_b w_env s = true /\
+  dsup s 0%nat * PREC <= dshares s (liq w_env) 0%nat /\ dsup s 1%nat * PREC <= dshares s (liq w_env) 1%nat /\
+  PREC * v_tokens (vals s 0%nat) <= v_shares (vals s 0%nat) /\
+  staked_value s 0%nat 0%nat = 965002 /\
+  class_of (step w_env s (Mint 0%nat 0%nat 965002)) = ROk /\ dbal s' 0%nat 0%nat = 499999 /\
+  staked_value s' 0%nat 0%nat = 964999 /\
+  v_tokens (vals s' 0%nat) = 965003 /\ v_shares (vals s' 0%nat) = 500001009067343419010778.
+Proof.
+  vm_compute. split; [reflexivity|]. split; [discriminate|]. split; [discriminate|].
+  split; [discriminate|]. repeat split; reflexivity.
+Qed.
+Print Assumptions C12_value_two_units_refuted.
+
+(* Partial 1 — the true bound: while a share is worth at most one token (every validator created
+   by CreateValidator starts there and slashing only lowers it) and the validator holds at most
+   10^18 base units, a mint lowers the value owned by at most THREE base units (attained above). *)
+Theorem C12_value_three_units_partial :
+  forall e s a i amt s' minted,
+  env_wf e -> Inv e s -> backed_all e s -> (a < nacc e)%nat -> a <> liq e ->
+  mint e s a i amt = Ok s' minted ->
+  PREC * v_tokens (vals s i) <= v_shares (vals s i) -> v_tokens (vals s i) <= PREC ->
+  staked_value s a i - 3 <= staked_value s' a i <= staked_value s a i + 1.
+Proof.
+  intros e s a i amt s' minted Hwf HI HB Ha Hne Hm Hp HT. split.
+  - eapply mint_value_lower3; eauto.
+  - eapply mint_value_upper; eauto.
+Qed.
+Print Assumptions C12_value_three_units_partial.
+
+(* Partial 2 — two units, as the property says, whenever a share is still worth at most one
+   token AFTER the mint ... *)
+Theorem C12_value_two_units_partial :
+  forall e s a i amt s' minted,
+  env_wf e -> Inv e s -> backed_all e s -> (a < nacc e)%nat -> a <> liq e ->
+  mint e s a i amt = Ok s' minted ->
+  PREC * v_tokens (vals s i) <= v_shares (vals s i) -> v_tokens (vals s i) <= PREC ->
+  PREC * v_tokens (vals s' i) <= v_shares (vals s' i) ->
+  staked_value s a i - 2 <= staked_value s' a i <= staked_value s a i + 1.
+Proof.
+  intros e s a i amt s' minted Hwf HI HB Ha Hne Hm Hp HT Hp'. split.
+  - eapply mint_value_lower2; eauto.
+  - eapply mint_value_upper; eauto.
+Qed.
+Print Assumptions C12_value_two_units_partial.
+
+(* ... in particular under this guard on the state BEFORE the mint: with p = T P / S the share
+   price and k = T - amt the tokens the mint leaves in the validator, p (1 + 1/k) <= 1 (a
+   validator slashed by a fraction f: at least 1/f - 1 tokens stay; 7 % slash: 14 tokens) *)
+Theorem C12_value_two_units_guard :
+  forall e s a i amt s' minted,
+  env_wf e -> Inv e s -> backed_all e s -> (a < nacc e)%nat -> a <> liq e ->
+  mint e s a i amt = Ok s' minted ->
+  v_tokens (vals s i) <= PREC -> amt < v_tokens (vals s i) ->
+  PREC * v_tokens (vals s i) * (v_tokens (vals s i) - amt + 1) <= v_shares (vals s i) * (v_tokens (vals s i) - amt) ->
+  staked_value s a i - 2 <= staked_value s' a i.
+Proof. exact mint_value_lower2_guard. Qed.
+Print Assumptions C12_value_two_units_guard.
+
+(* The general formula (also once a share is worth MORE than one token, which only the refuted
+   case above can produce): if the mint does not convert every share of the validator and a share
+   is worth at most c tokens after it, the loss is at most c + 1 = one token truncated by Unbond
+   + one share floored by the mint.  The classifier of the known finding uses exactly this. *)
+Theorem C12_value_loss_by_share_price :
+  forall e s a i amt s' minted c,
+  env_wf e -> Inv e s -> backed_all e s -> (a < nacc e)%nat -> a <> liq e ->
+  mint e s a i amt = Ok s' minted ->
+  1 <= c -> v_tokens (vals s i) <= PREC ->
+  dshares s a i - dshares s' a i <> v_shares (vals s i) ->
+  PREC * v_tokens (vals s' i) <= c * v_shares (vals s' i) ->
+  staked_value s a i - (c + 1) <= staked_value s' a i.
+Proof. exact mint_value_lower_price. Qed.
+Print Assumptions C12_value_loss_by_share_price.
+
+(* a burn changes the value owned by at most two base units down and one up, for any exchange
+   rate in the range of the no-empty-delegation theorem (a share worth at most 5 * 10^17 tokens) *)
+Theorem C12_burn_value_two_units :
+  forall e s a i amt s' recv,
+  env_wf e -> Inv e s -> backed_all e s -> (a < nacc e)%nat -> a <> liq e ->
+  burn e s a i amt = Ok s' recv ->
+  2 * v_tokens (vals s i) <= v_shares (vals s i) ->
+  staked_value s a i - 2 <= staked_value s' a i <= staked_value s a i + 1.
+Proof. exact burn_value_bounds. Qed.
+Print Assumptions C12_burn_value_two_units.
+
+(* non-vacuity on a slashed validator: a mint and a burn within the bounds, value really moving *)
+Example C12_value_bounds_nonvacuous :
+  let s := run w_env w_init [w_slash7] in
+  let s1 := run w_env s [Mint 0%nat 0%nat 1000; SendD 0%nat 1%nat 0%nat 100] in
+  staked_value s 0%nat 0%nat = 930000006 /\
+  class_of (step w_env s (Mint 0%nat 0%nat 5)) = ROk /\
+  staked_value (step' w_env s (Mint 0%nat 0%nat 5)) 0%nat 0%nat = 930000005 /\
+  staked_value s1 1%nat 0%nat = 93 /\
+  class_of (step w_env s1 (Burn 1%nat 0%nat 7)) = ROk /\
+  staked_value (step' w_env s1 (Burn 1%nat 0%nat 7)) 1%nat 0%nat = 92.
+Proof. vm_compute. repeat split; reflexivity. Qed.
 
 (** ** never an empty delegation: for a validator whose shares are worth less than 5*10^17 tokens
     each (every validator created by CreateValidator starts at one token per share and slashing
@@ -234,6 +360,82 @@ Theorem C12_tally_bounded_per_validator :
   2 * counted_for v ds hs voted <= 2 * dec_of_int (v_tokens v) + Z.of_nat (length ds) + 1.
 Proof. exact counted_for_bound. Qed.
 Print Assumptions C12_tally_bounded_per_validator.
+
+(* The WHOLE handler (app/tally_handler.go as modelled by Model/Tally.v [tally]: votes, each
+   voter's delegations to bonded validators and derivative holdings in wallet + savings + earn
+   valued through the validator record, deductions, then the validators' remaining power, then
+   the four truncated results): for every state satisfying the invariant and backing, every set
+   of well-formed votes (one per voter, voters are user accounts, weights >= 0 summing to at most
+   one, at most four options), the counted power never exceeds the total bonded stake.  Slack:
+   every LegacyDec rounding adds at most half a unit of 10^-18; the truncation of the results to
+   whole tokens absorbs them as long as nval * (10 * votes + 5) < 2 * 10^18. *)
+Theorem C12_tally_bounded :
+  forall e s votes o,
+  env_wf e -> Inv e s -> backed_all e s -> votes_wf e votes ->
+  Z.of_nat (nval e) * (10 * Z.of_nat (length votes) + 5) < 2 * PREC ->
+  tally e s votes = Some o ->
+  counted o <= total_bonded e s.
+Proof. exact tally_counted_le_bonded. Qed.
+Print Assumptions C12_tally_bounded.
+
+(* the same before truncation: totalVotingPower (18 decimals) against the bonded tokens *)
+Theorem C12_tally_total_voting_power :
+  forall e s votes,
+  env_wf e -> Inv e s -> backed_all e s -> votes_wf e votes ->
+  2 * t_total (tally_acc e s votes)
+    <= 2 * PREC * total_bonded e s + Z.of_nat (nval e) * (2 * Z.of_nat (length votes) + 1).
+Proof. intros e s votes Hwf HI HB Hv. exact (proj1 (tally_total_power_le e s votes Hwf HI HB Hv)). Qed.
+Print Assumptions C12_tally_total_voting_power.
+
+(* for every history: invariant and backing are preserved (theorems above), so every tally taken
+   after any history of the modelled operations is bounded *)
+Theorem C12_tally_bounded_all_histories :
+  forall e ops s votes o,
+  env_wf e -> Inv e s -> backed_all e s -> votes_wf e votes ->
+  Z.of_nat (nval e) * (10 * Z.of_nat (length votes) + 5) < 2 * PREC ->
+  tally e (run e s ops) votes = Some o ->
+  counted o <= total_bonded e (run e s ops).
+Proof.
+  intros e ops s votes o Hwf HI HB Hv Hs Ht.
+  apply (tally_counted_le_bonded e (run e s ops) votes o); auto; [now apply run_inv|now apply run_backed].
+Qed.
+Print Assumptions C12_tally_bounded_all_histories.
+
+(* The tie of the fold (Model/TallyTie.v): at every tally of every history the harness records what
+   the handler reads through the keepers (bonded validators, TotalBondedTokens, each voter's
+   delegations and derivative coins) and the totalVotingPower the SDK's LegacyDec gives on them;
+   the model run requires [tally_in_ok].  Whenever that check passes, the implementation-side
+   numbers satisfy the bound themselves: *)
+Theorem C12_tally_tie_bounded :
+  forall e s votes ti,
+  env_wf e -> Inv e s -> backed_all e s -> votes_wf e votes ->
+  tally_in_ok e s votes ti = true ->
+  2 * ti_total ti <= 2 * PREC * ti_bonded ti + Z.of_nat (nval e) * (2 * Z.of_nat (length votes) + 1).
+Proof.
+  intros e s votes ti Hwf HI HB Hv Hok. unfold tally_in_ok in Hok.
+  apply andb_prop in Hok. destruct Hok as (Hok & Ht). apply andb_prop in Hok. destruct Hok as (Hok & _).
+  apply andb_prop in Hok. destruct Hok as (_ & Hb).
+  apply Z.eqb_eq in Ht. apply Z.eqb_eq in Hb. rewrite <- Ht, <- Hb.
+  exact (proj1 (tally_total_power_le e s votes Hwf HI HB Hv)).
+Qed.
+Print Assumptions C12_tally_tie_bounded.
+
+(* the hypotheses are not vacuous: the votes of the examples below are well formed, the world
+   satisfies invariant and backing *)
+Example C12_tally_bounded_nonvacuous :
+  env_wf w_env /\ inv_b w_env w_init = true /\
+  votes_wf w_env [(0%nat, [(0%nat, PREC)]); (2%nat, [(2%nat, 300000000000000000); (3%nat, 700000000000000000)])].
+Proof.
+  split; [unfold env_wf; cbn; lia|]. split; [vm_compute; reflexivity|].
+  split.
+  - cbn [map fst]. constructor; [cbn; intros [H|[]]; discriminate|]. constructor; [cbn; tauto|constructor].
+  - intros vt Hin. cbn [In] in Hin. unfold vote_wf, opts_wf.
+    destruct Hin as [<-|[<-|[]]]; cbn [fst snd length].
+    + split; [cbn; lia|]. split; [cbn; discriminate|]. split; [lia|]. split; [|vm_compute; discriminate].
+      intros o [<-|[]]. cbn. unfold PREC. lia.
+    + split; [cbn; lia|]. split; [cbn; discriminate|]. split; [lia|]. split; [|vm_compute; discriminate].
+      intros o [<-|[<-|[]]]; cbn; lia.
+Qed.
 
 (* only while bonded: after validator 0 is jailed (the history that let 900 000 000 votes pass a
    proposal against 1 000 000 bonded before the fix) its derivative holder counts nothing *)
